@@ -363,8 +363,11 @@ def c12(tier, replay=None):
     if tier == "quick":
         plans = [("d-host2", ["word", "apos", "ml"], ["bare", "sq", "tdq", "text"], ["sp", "eol"], ["eof", "eol", "cmt"], 2)]
     else:
-        plans = [("d-host2", sorted(PALETTE), ALLPRES, ["sp", "eol", "cmt"], ["eof", "eol", "cmt"], 2),
-                 ("d-host3", ["word", "apos", "ml", "unk", "semi", "bslend"], ["bare", "sq", "tdq", "text", "textpf"], ["sp", "eol"], ["eof", "eol"], 3)]
+        # every palette value in every presentation next to each defect (one host item), the interacting values in pairs,
+        # three host items for the position-dependent defects; each plan stratified down to 60 000 documents
+        plans = [("d-host1", sorted(PALETTE), ALLPRES, ["sp", "eol", "cmt"], ["eof", "eol", "cmt"], 1),
+                 ("d-host2", ["word", "apos", "ml", "unk", "semi", "bslend"], ["bare", "sq", "tdq", "text", "textpf"], ["sp", "eol"], ["eof", "eol", "cmt"], 2),
+                 ("d-host3", ["word", "apos", "ml"], ["bare", "sq", "text"], ["sp", "eol"], ["eof"], 3)]
     covs = []
     tstates = ttrans = total = total_ok = 0
     per_class = collections.Counter()
@@ -395,7 +398,8 @@ def c12(tier, replay=None):
         tstates += int(m.group(2)); ttrans += int(m.group(1))
         docs = [o for tag, o in iter_tlc_json(out, ("DEFECT",))]
         cleanup(wd)
-        if tier == "quick" and len(docs) > 8000:
+        cap = 8000 if tier == "quick" else 60000
+        if len(docs) > cap:
             # keep every class represented
             byc = collections.defaultdict(list)
             for o in docs:
@@ -403,7 +407,7 @@ def c12(tier, replay=None):
             docs = []
             for c, lst in byc.items():
                 rnd.shuffle(lst)
-                docs += lst[:max(40, 8000 // len(byc))]
+                docs += lst[:max(40, cap // len(byc))]
         jobs = [(render(o["d"]["doc"], ("lf", "crlf", "lf", "cr")[i % 4]), i) for i, o in enumerate(docs)]
         nok = 0
         for key, po, pr, leak in parse_docs(binary, jobs):
